@@ -179,7 +179,7 @@ pub fn oracle(c: &PuCtx, rec: &mut Rec) {
 }
 
 pub fn jobs(tier: Tier) -> Vec<Job> {
-    let full = PuChecker { name: "c04-pu-full".into(), seeds: vec!["S1", "S2", "S2r", "S3", "S4", "S5", "S6", "S7", "S8", "S8a"], alpha: Alpha::Full, oracles: vec![oracle] };
-    let core = PuChecker { name: "c04-pu-swapfocus".into(), seeds: vec!["S2", "S5"], alpha: Alpha::SwapFocus, oracles: vec![oracle, oracle_default_receiver] };
+    let full = PuChecker { name: "c04-pu-full".into(), seeds: vec!["S1", "S2", "S2r", "S3", "S4", "S5", "S6", "S7", "S8", "S8a", "S9"], alpha: Alpha::Full, oracles: vec![oracle] };
+    let core = PuChecker { name: "c04-pu-swapfocus".into(), seeds: vec!["S2", "S5", "S9"], alpha: Alpha::SwapFocus, oracles: vec![oracle, oracle_default_receiver] };
     vec![explore_job(full, tier.pick(2, 3), Caps::default()), explore_job(core, tier.pick(3, 4), Caps::default())]
 }
